@@ -237,6 +237,7 @@ def open_file(interp, pos, kw, node):
         raise RaiseEx("FileNotFoundError", path, node)
     f = MemFile(interp.vfs, path, mode)
     interp.opened.append((path, mode))
+    interp.open_sites.append((path, mode, getattr(node, "lineno", None)))
     return f
 
 
@@ -295,8 +296,10 @@ def install(interp, db=None, files=None):
     """Put `interp` into scenario mode; returns the connection over `db`."""
     interp.vfs = dict(files or {})
     interp.opened = []
+    interp.open_sites = []
     interp.unlinked = []
     interp.tempnames = []
+    interp.temp_requests = []
     db = db if db is not None else minidb.MiniDB()
     conn = ConnVal(db)
     interp.conn = conn
@@ -318,6 +321,7 @@ def install(interp, db=None, files=None):
         f = MemFile(i.vfs, name, "w" if not isinstance(mode, str) else mode.replace("b", "").replace("+", "") or "w")
         f.delete_on_close = kw.get("delete", True) is not False
         i.trace.events.append(("tempfile", name, kw, node))
+        i.temp_requests.append(dict(kw))
         i.opened.append((name, "w"))
         return f
 
@@ -326,6 +330,7 @@ def install(interp, db=None, files=None):
         i.vfs[name] = []
         fd = Opaque("fd#%d" % len(i.tempnames), "fd")
         fd.attrs["path"] = name
+        i.temp_requests.append(dict(kw))
         i.trace.events.append(("tempfile", name, kw, node))
         return (fd, name)
 
@@ -354,4 +359,22 @@ def install(interp, db=None, files=None):
     interp.ext_summaries["os.unlink"] = s_unlink
     interp.ext_summaries["os.remove"] = s_unlink
     interp.ext_summaries["os.path.exists"] = lambda i, pos, kw, node: _pathname(pos[0]) in i.vfs
+    interp.ext_summaries["tempfile.gettempdir"] = lambda i, pos, kw, node: "/tmp"
+    interp.ext_summaries["tempfile.gettempprefix"] = lambda i, pos, kw, node: "tmp"
+    interp.ext_summaries["os.getpid"] = lambda i, pos, kw, node: 4242
+    interp.ext_summaries["os.path.join"] = lambda i, pos, kw, node: "/".join(_pathname(x).rstrip("/") if k < len(pos) - 1 else _pathname(x) for k, x in enumerate(pos))
+    interp.ext_summaries["os.path.expanduser"] = lambda i, pos, kw, node: pos[0]
+    interp.ext_summaries["os.path.abspath"] = lambda i, pos, kw, node: pos[0] if _pathname(pos[0]).startswith("/") else "/cwd/" + _pathname(pos[0])
+    interp.ext_summaries["os.path.dirname"] = lambda i, pos, kw, node: _pathname(pos[0]).rsplit("/", 1)[0] if "/" in _pathname(pos[0]) else ""
+    interp.ext_summaries["os.getcwd"] = lambda i, pos, kw, node: "/cwd"
+
+    def s_splitext(i, pos, kw, node):
+        p_ = _pathname(pos[0])
+        base = p_.rsplit("/", 1)[-1]
+        if "." in base.lstrip("."):
+            k = p_.rfind(".")
+            return (p_[:k], p_[k:])
+        return (p_, "")
+    interp.ext_summaries["os.path.splitext"] = s_splitext
+    interp.ext_summaries["os.path.basename"] = lambda i, pos, kw, node: _pathname(pos[0]).rsplit("/", 1)[-1]
     return conn
